@@ -276,7 +276,7 @@ MANIFEST_TEXT = {
         text="TLC evaluates the GB/T 32905 definition (SM3.tla, anchored by the standard's examples) on every recorded sm3_hash event of the real "
              "library: every length 0..300 (quick) / 0..4096 (thorough) in several content classes with the machine state carried across the session, "
              "single-bit messages over three blocks, random multi-block messages, purity sequences; plus an exhaustive toy model (MC_SM3) showing that the "
-             "code-shaped padding loop equals the standard padding for every length 0..1100 and giant bit lengths, and that block iteration equals the definition for every split.",
+             "code-shaped padding loop equals the standard padding for every length 0..1100 and giant bit lengths, and that block iteration equals the definition for every split. Thorough tier: additionally one message of more than 2^32 bytes (block indices beyond 2^26) through the block observer, with Gen.tla addressing bytes by (block, offset).",
         note="Trusted: TLC/SANY, CommunityModules (Json, IOUtils, Bitwise), the transcription of GB/T 32905 in SM3.tla (checked by ASSUMEd vectors on every run), the harness's logging.",
         technique="TLA+ trace validation with TLC (SM3 machine) + TLC exhaustive toy model of padding/iteration",
     ),
@@ -285,7 +285,7 @@ MANIFEST_TEXT["C02"] = dict(
     text="Every recorded Sm4Cipher::new / encrypt / decrypt event of the real library is judged by the GB/T 32907 definition in SM4.tla (S-box defined "
          "algebraically, standard example and OpenSSL ECB vectors as anchors). A session is one cipher object whose specification state is the round-key tuple "
          "derived from the construction key and never changes, so history dependence is a deviation; call sequences are ALL sequences up to length 3 (quick) / 4 "
-         "(thorough) enumerated by TLC (PlanSM4). The Feistel inversion argument is model-checked for every round function, key sequence and block (MC_Feistel) with a negative control.",
+         "(thorough) enumerated by TLC (PlanSM4). The Feistel inversion argument is model-checked for every round function, key sequence and block (MC_Feistel) with a negative control. Besides the enumerated histories (now including calls the object must REFUSE, after which it must behave as before), PlanSM4 crafts blocks by running a chosen mid-cipher state backwards so that the round transform of one chosen round receives 00000000 / FFFFFFFF / D6D6D6D6 / 01010101 (every round, both directions, self-checked by ASSUME).",
     note="Trusted: TLC/SANY, CommunityModules, the transcription of GB/T 32907 in SM4.tla (ASSUMEd vectors), the Debug rendering of Sm4Cipher used to read round keys, harness logging.",
     technique="TLA+ trace validation with TLC (immutable cipher-object machine, TLC-enumerated call sequences) + exhaustive toy Feistel model",
 )
@@ -302,14 +302,14 @@ MANIFEST_TEXT["C08"] = dict(
          "anchors). TLC enumerates EVERY composition of every total <= 8 (quick) / <= 12 (thorough) into request sizes with interspersed zero-length requests (PlanZUC); each "
          "is replayed on a real generator and every request is judged against the specification state carried through the session (TraceZUC), plus long streams with random "
          "splits, structured and single-bit keys/IVs. Toy models: Mersenne arithmetic (spec form and code form) for all operands, and refinement of the request layer to the "
-         "word-at-a-time stream for all compositions.",
+         "word-at-a-time stream for all compositions. The driver also crafts (key, IV) pairs by a meet-in-the-middle search so that one addition of the first initialisation round sums to exactly 2^31-1 / 2^31 / 2^31+1; ZUC.tla classifies such sessions itself (FirstRoundBoundary; class required non-empty).",
     note="Trusted: TLC/SANY, CommunityModules, the transcription of ZUC v1.6 in ZUC.tla (official vectors as ASSUMEs), harness logging.",
     technique="TLA+ trace validation with TLC (generator state machine, TLC-enumerated request compositions) + exhaustive toy models",
 )
 MANIFEST_TEXT["C18"] = dict(
     text="Every recorded 128-EEA3 / 128-EIA3 call (every LENGTH 0..600 in the thorough tier, a boundary-heavy subset in quick; all bearers and directions; involution and "
          "bit-dependence sequences; random keys/messages) is judged by EEA3.tla (3GPP test sets as anchors) over ZUC.tla; the word-level mask/shift/extraction helpers are "
-         "model-checked against their bit-level meaning for every argument (MC_EEA).",
+         "model-checked against their bit-level meaning for every argument (MC_EEA). Crafted (key, COUNT, BEARER, DIRECTION) whose derived IV puts an addition of the first initialisation round on the reduction boundary (classified by the specification), and messages of 40 000 - 65 504 bits.",
     note="Trusted: TLC/SANY, CommunityModules, the transcription of TS 35.221 in EEA3.tla (official test sets as ASSUMEs), harness logging.",
     technique="TLA+ trace validation with TLC + exhaustive model of the word-level helpers",
 )
@@ -325,7 +325,7 @@ MANIFEST_TEXT["C04"] = dict(
     text="Fault enumeration judged by the specification: for valid signatures every one of the 512 bit flips, component substitutions (0, n, n+1, 2^256-1, n-1, s = n-r, swap), "
          "every length 0..130, altered message / ID / key, random pairs; plus digest-level cases CONSTRUCTED by the specification (PlanSM2Sig) so that exactly one check can reject "
          "them: (r, s+n), (r+n, s), (r, n-r) with matching e. Rule: the library may accept only if SM2.tla's Verify holds (evaluated lazily), untouched signatures must be accepted, "
-         "a length other than 64 must be an error, a panic is a deviation.",
+         "a length other than 64 must be an error, a panic is a deviation. Forgery families are constructed by the specification (PlanSM2Sig): s + n, r + n, t = 0, the sum [s]G + [t]P = O with every digest a verifier missing the infinity would accept, (r, 0) / (0, s) / (r, n) / (n, s) consistent by construction, 256 near misses differing from the recomputed R in one bit, and valid signatures with sparse t (must be accepted).",
     note="Trusted: as C03, plus the digest-level hook wrappers (verif_verify_digest). Removing only the r-range check is unobservable (the final comparison rejects r+n) and is not claimed.",
     technique="fault enumeration with TLA+ trace validation (TLC) and specification-constructed forgeries",
 )
@@ -364,7 +364,7 @@ MANIFEST_TEXT["C11"] = dict(
          "against L0 on toy curves for every pair of Jacobian representations and every scalar incl. 0, n and values above n; Montgomery mul/add/sub at toy word size for all primes and "
          "operands; negative configurations (the pinned commit's point_add) are refuted. At real size every recorded point operation (equal / opposite / re-randomised / infinity operands, "
          "scalars 0, 1, n-1, n, n+1..n+40, 2^256-1, single-byte scalars through g_mul), every field operation mod p and mod n on boundary-limb / near-modulus / random canonical operands, "
-         "and ALL 32x255 fixed-base table entries (walked by the recurrence entry(i,b) = entry(i,b-1) + entry(i,1), entry(i+1,1) = [256]entry(i,1)) are judged on denotations.",
+         "and ALL 32x255 fixed-base table entries (walked by the recurrence entry(i,b) = entry(i,b-1) + entry(i,1), entry(i+1,1) = [256]entry(i,1)) are judged on denotations. PlanField solves for operands whose Montgomery product lands in [m, 2^256), equals m - 2^(64j), or 0 / m; operand pairs are solved so that the raw 256-bit sum / difference has patterned limbs; representations with special stored Z; trait-level products with stored operands 1, 2, p-1.",
     note="Trusted: TLC/SANY, BigNat Java override (cross-checked by MC_BigNat in the same check), the hook wrappers exposing crate-private field functions and the table. "
          "Nothing is claimed proved for all 256-bit operands; real-size coverage is boundary/witness/random conformance.",
     technique="TLC exhaustive toy models of the transcribed Jacobian/Montgomery code + TLA+ trace validation on denotations at real size (table exhaustive)",
@@ -404,7 +404,7 @@ MANIFEST_TEXT["C14"] = dict(
     text="The sampler is specified as a machine (Rng.tla: Draw, Accept only in [1, order-1], one scalar per operation) and model-checked on a toy range with a negative control. At real size "
          "thousands of randomized operations (SM2 keygen/sign/encrypt/exchange, SM9 keygen x3/sign/encrypt/exchange) run under the RNG hooks in two processes: every accepted candidate must be in "
          "range and be the last draw, the scalar actually used (k recovered as s(1+d)+rd from signatures, or [k]G compared) must be the accepted draw, no scalar may repeat within or across processes, "
-         "per-bit frequencies within 8 sigma; injected candidates 0, order, order+1, order+2, p-2, p-1, p, 2^256-1 must never be accepted.",
+         "per-bit frequencies within 8 sigma; injected candidates 0, order, order+1, order+2, p-2, p-1, p, 2^256-1 must never be accepted. For SM9 the accepted draw is tied to what the operation used: TraceRng instantiates the SM9 specification and checks Ppub-e = [k]P1, C1 / R_A / R_B = [k]Q and S = [(k-h)]ds; an encryption whose first scalar gives an all-zero K1 must show two accepted draws. Every scripted operation is offered every out-of-range candidate, including values that a comparison skipping one limb takes for smaller.",
     note="Assumes the hook sits where the 32 generator bytes become a candidate. Bias is a counting test; OS seeding is observed only through non-repetition across processes.",
     technique="TLC model of the sampler + TLA+ trace validation of hook-recorded draws (range, freshness, used = drawn, counting test)",
 )
